@@ -498,7 +498,7 @@ def metadata_print_consistent(t):
 
 
 # ------------------------------------------------------------------------------------------ Coq side
-CASE_HEADER = ct.COQ_HEADER + "From Bermuda Require Import Model.Basis.\n"
+CASE_HEADER = ct.COQ_HEADER + "From Bermuda Require Import Model.Order Model.Basis Proofs.BasisCanon.\n"
 
 
 def case_term(case):
@@ -515,6 +515,9 @@ def case_term(case):
 
 CHECK_DEFS = """
 Definition d := std_desc.
+(* hypotheses of the whole-triangle theorems (Props/C04.v section 7) on the printed input *)
+Definition canon (t : list cell) : bool :=
+  res_eqb (mk_triangle t) (Ok t) && comparableb t && meta_separatedb t.
 (* per case: [model(first op) == impl; model(second op)(impl first result) == impl second result; spec] *)
 Definition verdict (c : list cell * result (list cell) * result (list cell)) : list bool :=
   let '(t, r1, r2) := c in
@@ -522,19 +525,24 @@ Definition verdict (c : list cell * result (list cell) * result (list cell)) : l
     [ res_eqb (to_cumulative d t) r1;
       res_eqb (bind r1 (to_incremental d)) r2;
       spec_inc t r1 r2;
-      res_eqb (to_incremental d t) (Ok t) ]
+      res_eqb (to_incremental d t) (Ok t);
+      canon t && res_eqb (bind (to_cumulative d t) mk_triangle) r1
+      && res_eqb (bind r1 (fun c => bind (to_incremental d c) mk_triangle)) r2 ]
   else
     [ res_eqb (to_incremental d t) r1;
       res_eqb (bind r1 (to_cumulative d)) r2;
       spec_cum t r1 r2;
-      res_eqb (to_cumulative d t) (Ok t) ].
+      res_eqb (to_cumulative d t) (Ok t);
+      canon t && res_eqb (bind (to_incremental d t) mk_triangle) r1
+      && res_eqb (bind r1 (fun c => bind (to_cumulative d c) mk_triangle)) r2 ].
 Definition hyp (c : list cell * result (list cell) * result (list cell)) : nat :=
   let '(t, _, _) := c in
   if is_incremental t then (if inc_hyp t then 2 else if first_bad_is_broken (rows_of t) then 1 else 0)
   else (if cum_hyp true t then 3 else if cum_hyp false t then 2 else if first_bad_cum_is_keys (rows_of t) then 1 else 0).
 Definition vs := map verdict cases.
 Eval vm_compute in (failing (map (fun v => nth 0 v false) vs), failing (map (fun v => nth 1 v false) vs),
-                    failing (map (fun v => nth 2 v false) vs), failing (map (fun v => nth 3 v false) vs)).
+                    failing (map (fun v => nth 2 v false) vs), failing (map (fun v => nth 3 v false) vs),
+                    failing (map (fun v => nth 4 v false) vs)).
 Eval vm_compute in map hyp cases.
 """
 
@@ -588,7 +596,8 @@ def correspondence(ctx, cases, per_file):
         n += len(kept)
         for i, h in enumerate(hyps):
             kept[i]["hyp"] = h
-        names = ["model!=impl (first conversion)", "model!=impl (second conversion)", "spec", "model!=impl (identity)"]
+        names = ["model!=impl (first conversion)", "model!=impl (second conversion)", "spec", "model!=impl (identity)",
+                 "input not canonical for Model/Order.mk_triangle, or constructor-composed model != impl"]
         for which, idxs in enumerate(quad):
             for i in idxs:
                 problems.append((names[which], kept[i], which))
@@ -745,7 +754,7 @@ def _run(ctx):
         keep.append(c)
     cases = keep
     problems, n = correspondence(ctx, cases, per_file=60 if ctx.quick else 200)
-    ctx.count(evaluations=4 * n, traces=2 * n)
+    ctx.count(evaluations=5 * n, traces=2 * n)
     ctx.log(f"correspondence: {n} cases, {len(problems)} failing verdicts")
     ctx.obligation("correspondence model == implementation and executable spec on implementation outputs",
                    not problems, repr([(p[0], p[1] and p[1]["label"]) for p in problems[:5]]))
